@@ -293,7 +293,7 @@ pub fn wf_frag(i: &FragIn, out: &EncOut, buf: &[u8], sentinel: u8) -> Vec<Fail> 
     let pos = i.ctx.pos as usize;
     if pos > p_len {
         match out {
-            EncOut::Err(e) if e == "ErrorPduLength" => {}
+            EncOut::Err(_) => {} // any error will do: the statement only says "an error, never a packet"
             EncOut::Panic(_) => {}
             other => f.push(("ctx-beyond-pdu".into(), format!("context points beyond the PDU ({} > {}) but the call returned {}", pos, p_len, other.class()))),
         }
